@@ -15,7 +15,7 @@ pub fn evaluate(input: &Tree) -> Result<Tree, String> {
 
 pub fn dispatch(op: &str, input: &Tree) -> Option<Result<Tree, String>> {
     match op {
-        "evaluate" => Some(evaluate(input)),
+        "evaluate" | "evaluate_f" => Some(evaluate(input)),
         _ => None,
     }
 }
